@@ -50,6 +50,7 @@ using namespace vw;
 // element type: identity (key, tag); every comparison only looks at the key and is logged
 // ------------------------------------------------------------------------------------------
 static unsigned char g_touch[256];
+static int g_selfmove = 0; // number of self-move-assignments (x = std::move(x)) during the current call
 
 struct Elem {
     int k;
@@ -61,11 +62,16 @@ struct Elem {
     Elem(Elem&& o) noexcept : k(o.k), t(o.t) { o.k = 9; }
     auto operator=(Elem&& o) noexcept -> Elem&
     {
-        if (this != &o) {
-            k   = o.k;
-            t   = o.t;
-            o.k = 9;
+        // self-hostile like a real handle type (vector, unique_ptr-like): x = move(x) leaves x moved-from;
+        // the call is also flagged ("sm") so that the trace specification can judge it
+        if (this == &o) {
+            ++g_selfmove;
+            k = 9;
+            return *this;
         }
+        k   = o.k;
+        t   = o.t;
+        o.k = 9;
         return *this;
     }
     int code() const { return k * 16 + t; }
@@ -995,6 +1001,7 @@ static void run_case(Alg const& alg, Run const& run, std::vector<int> const& ka,
         x.B.set(x.rev ? std::vector<int>(x.b.rbegin(), x.b.rend()) : x.b), x.D.blanks(dl), x.D2.blanks(dl);
     }
     std::memset(g_touch, 0, sizeof g_touch);
+    g_selfmove = 0;
     // watchdog: an algorithm that does not return within VH_HANG_SECONDS on a <= 6 element input is
     // recorded as a "hang" event (judged by the trace specification); the rest of the group is abandoned
     g_hung = 0;
@@ -1047,6 +1054,7 @@ static void run_case(Alg const& alg, Run const& run, std::vector<int> const& ka,
     }
     put_arr("p", p);
     g_out += ok ? ",\"cz\":1" : ",\"cz\":0";
+    if (g_selfmove) { g_out += ",\"sm\":1"; }
     g_out += g_hung == 0 ? "}\n" : g_hung == 1 ? ",\"hang\":1}\n" : ",\"hang\":2}\n";
     std::fwrite(g_out.data(), 1, g_out.size(), stdout);
     std::fflush(stdout);
